@@ -516,6 +516,12 @@ pub fn sc_multi() -> Scenario
 }
 pub fn sc_two_comp() -> Scenario { scn("twocomp", vec![cat_rule("a", &["s"]), cat_rule("b", &["a"]), cat_rule("p", &["u"])], &["s", "u"]) }
 pub fn sc_twins() -> Scenario { scn("twins", vec![cat_rule("a", &["s"]), cat_rule("b", &["s"])], &["s"]) }
+pub fn sc_twins_plus() -> Scenario
+{
+    let mut s = scn("twinsplus", vec![cat_rule("a", &["s"]), cat_rule("b", &["s"]), cat_rule("k", &["u"])], &["s", "u"]);
+    s.goals = vec![None, Some("a".to_string()), Some("b".to_string())];
+    s
+}
 pub fn sc_twins3() -> Scenario { scn("twins3", vec![cat_rule("a", &["s"]), cat_rule("b", &["s"]), cat_rule("c", &["a", "b"])], &["s"]) }
 
 /// diamond + independent sibling, with rule `i` replaced by a failing / non-producing one
@@ -570,6 +576,13 @@ pub fn success_cases(tier: &str) -> Vec<SchedCase>
     v.push(mk("twocomp/fresh/build", &two, vec![], b(None)));
     v.push(mk("twocomp/goal-b/build", &two, vec![b(None), e("s", 1)], b(Some("b"))));
     v.push(mk("fanin/fresh/build", &fanin, vec![], b(None)));
+    // targets whose parsed order is not their string order; p must follow gen/data, d is forced by s3
+    let bundle = crate::scen::s10_bundle();
+    v.push(mk("bundle/built+edit-s1-s3/build", &bundle, vec![b(None), e("s1", 1), e("s3", 1)], b(None)));
+    v.push(mk("bundle/built+edit-s2/build", &bundle, vec![b(None), e("s2", 1)], b(None)));
+    // two rules wait for one cache entry while a third rule puts an identical file into the cache
+    let tp = sc_twins_plus();
+    v.push(mk("twins+backup/cleaned-a-b+edit-u/build", &tp, vec![b(None), c(Some("a")), c(Some("b")), e("u", 1)], b(None)));
     if tier == "thorough"
     {
         v.push(mk("chain3/fresh/build", &chain3, vec![], b(None)));
@@ -600,6 +613,9 @@ pub fn failure_cases(tier: &str) -> Vec<SchedCase>
     // non-producing rule
     let no = sc_fail("noout", &[1]);
     v.push(mk("fail/noout-l/fresh/build", &no, vec![], b(None)));
+    // a command of several lines whose first line fails while the later ones succeed
+    let ml = crate::scen::s12_multiline_failure();
+    v.push(mk("fail/multiline/fresh/build", &ml, vec![], b(None)));
     // missing leaves in the healthy graph
     let healthy = sc_fail("false", &[]);
     v.push(mk("missing/s/fresh/build", &healthy, vec![Op::RmLeaf { path: "s".into() }], b(None)));
